@@ -279,6 +279,9 @@ package jsonpatch
 
 //@ func findObject
 //@   requires args: pd != nil && rConOK(*pd)
+//@   callsite[C18] get#1 walks-the-reference-tokens-in-order-from-the-root: arg_key == unescape(tok(path, rangeindex + 2)) && (rangeindex == -1 ==> doc == old(*pd))
+//@   callsite[C18] intoAry#1 descends-into-the-child-just-looked-up: arg_n == next
+//@   callsite[C18] intoDoc#1 descends-into-the-child-just-looked-up: arg_n == next
 //@   modifies region(lazyNode.which), region(lazyNode.doc), region(lazyNode.ary)
 //@   ensures[C18] stable: rStable()
 //@   ensures[C18] root-kept: *pd == old(*pd)
@@ -292,6 +295,7 @@ package jsonpatch
 //@   invariant container: rConOK(doc) && rConOK(*pd) && *pd == old(*pd)
 //@   invariant stable: rStable()
 //@   invariant[C18] one-level: rangeindex == -1 ==> doc == old(*pd)
+//@   invariant parts-kept: len(parts) == ntok(path) - 2 && (forall j int {parts[j]} :: 0 <= j && j < len(parts) ==> parts[j] == tok(path, j + 1))
 
 //@ func (Patch).add
 //@   requires args: doc != nil && rConOK(*doc)
